@@ -221,7 +221,10 @@ def validate_trace(cwd, module, cfg, trace_path, env=None, chunks=None, max_reje
     hs = split_histories(lines)
     if not hs:
         raise Inconclusive("empty trace %s" % trace_path)
-    chunks = chunks or min(NCPU, max(1, len(lines) // 3000))
+    # at most NCPU TLC processes at a time; a chunk is capped at MAXCHUNK events (the Json module's deserialisation and
+    # TLC's memory grow faster than linearly on very long traces)
+    MAXCHUNK = 20000
+    chunks = chunks or max(min(NCPU, max(1, len(lines) // 3000)), (len(lines) + MAXCHUNK - 1) // MAXCHUNK)
     chunks = max(1, min(chunks, len(hs)))
     # contiguous chunks of whole histories, balanced by event count
     target = (len(lines) + chunks - 1) // chunks
@@ -389,8 +392,13 @@ class Report:
                   assumptions=self.assumptions, wall_s=round(time.time() - self.t0, 1), violations=len(self.violations))
         if not self.cov["samples"]:
             self.cov["samples"] = ["(no sample recorded)"]
-        os.makedirs(os.path.join(ROOT, "evidence"), exist_ok=True)
-        with open(os.path.join(ROOT, "evidence", self.prop + ".json"), "w") as f:
+        # a run against a scratch copy of the repository (VERIF_REPO, used by bin/seedcheck) must not
+        # overwrite the evidence of the real tree
+        evdir = os.path.join(ROOT, "evidence")
+        if os.environ.get("VERIF_REPO") and os.path.realpath(os.environ["VERIF_REPO"]) != "/repo":
+            evdir = os.environ.get("VERIF_EVIDENCE_DIR") or tempfile.mkdtemp(prefix="verif-evidence-")
+        os.makedirs(evdir, exist_ok=True)
+        with open(os.path.join(evdir, self.prop + ".json"), "w") as f:
             json.dump(ev, f, indent=1)
         return 1 if self.violations else 0
 
